@@ -33,7 +33,18 @@ def cases(tier, rng):
             line = scen.scenario(rng, t, allow_eof=False)
             out.append("d%d %s" % (k, line + " / recv" * 24))
             k += 1
+        # every complete message is consumed: also by a recv that parked (after an abandoned one, with another waker)
+        # before the message arrived
+        body = [b"", b"late"] if t == "REP" else [b"\x01late"] if t == "XPUB" else [b"late"]
+        for polls in (1, 2):
+            out.append("z%d sock %s / attach a %s / recvp %d / recvw a %s / recv" % (k, t, scen.PEER[t], polls, W.tok(W.msg(body))))
+            k += 1
     return out
+
+
+def model_cases(case_lines):
+    import re
+    return [re.sub(r"recvw (\S+) (\S+)", r"feed \1 \2 / recv", l) for l in case_lines]
 
 
 def norm_impl(o, line):
@@ -171,6 +182,11 @@ def judge(line, obs, orc):
         return "implementation " + str(obs)[:80]
     if line.split()[1] == "fq":
         return fq_judge(line, obs)
+    if line.startswith("z"):
+        toks = obs.split()
+        if "lost-wakeup" in obs or not any(t.startswith("r=ok:") and t.endswith("6c617465") for t in toks):
+            return "a complete message arrived while recv was parked (after an abandoned recv) and was never returned: " + obs[-80:]
+        return None
     r = sock_judge(line, obs)
     if r is None and line.startswith("d"):
         r = drained_judge(line, obs)
